@@ -204,6 +204,19 @@ func genWire(tier string) []proto.RTItem {
 					items = append(items, it)
 				}
 			}
+			if http && rdns {
+				// every spelling of "enabled" the query decoder knows (Go's boolean spellings), IPv4 and IPv6
+				for _, sp := range []string{"1", "t", "T", "TRUE", "True"} {
+					it := mk("udp", "", "203.0.113.77", addrs4[:4], true, true)
+					it.Scn.TrueSpelling = sp
+					it.Class += "/enabled-spelled-" + sp
+					items = append(items, it)
+				}
+				it := mk("icmp", "", "2001:db8::77", addrs6[:4], true, true)
+				it.Scn.TrueSpelling = "t"
+				it.Class += "/enabled-spelled-t"
+				items = append(items, it)
+			}
 			// a private target: the destination hop itself must be redacted
 			items = append(items, mk("udp", "", "10.9.8.7", []string{"198.51.100.1", "10.1.2.3"}, http, rdns))
 		}
